@@ -214,7 +214,9 @@ class Faults1(SubCheck):
             corpus.append(" ".join(b.build(spec)))
         # spelling variants: compact, exponent / leading-dot numbers, packed arc flags, segment-completing z
         corpus += ["M1-2.5.5L3e0-4E-1", "m.5.5 1e1-1", "M0,0 a5,8 30 0110,10", "M3,-2 C7,5 -4,1.5 z",
-                   "M3,-2 L7,5 A5,8 30 1 0 z", "M 1 2\tL\n3,4\rz", "M1,2 3,4 5,6z m1,1 h2v2H1V1"]
+                   "M3,-2 L7,5 A5,8 30 1 0 z", "M 1 2\tL\n3,4\rz", "M1,2 3,4 5,6z m1,1 h2v2H1V1",
+                   "M3,-2 L7,5 A5,8 30 1 0 Z", "M3,-2 l7,5 a5,8 30 1 0 Z", "M3,-2 C7,5 -4,1.5 Z", "M3,-2 L1,1 Q7,5 Z", "M3,-2 L1,1 T Z",
+                   "M3,-2 L1,1 S7,5 Z L Z"]
         self.menu = MENU_T if tier == "thorough" else MENU_Q
         self.corpus = corpus
         self.offsets = []
@@ -316,7 +318,7 @@ class Fragments(SubCheck):
             for n in range(len(ops) + 1):
                 frag = (letter + " " + " ".join(ops[:n])).strip()
                 for prefix in ("", "M3,-2 ", "M3,-2 L1,1 z ", "M3,-2 Q1,1 2,2 ", "M3,-2 C1,1 2,2 4,4 ", "z ", "   "):
-                    for suffix in ("", " z", " L9,9"):
+                    for suffix in ("", " z", " Z", " L9,9"):
                         cases.append(prefix + frag + suffix)
         for fl in ("2", "-1", "1.0", "00", "11", "a", "0.5"):
             cases.append("M3,-2 A5,8 30 %s 1 7,5" % fl)
